@@ -361,6 +361,9 @@ TEXTUAL = [
     ("C20", "permute-factors-congruence-arguments-swapped", "tensorly/cp_tensor.py", "            ref_cp_tensor.factors, tensors_to_permute[i].factors\n", "            tensors_to_permute[i].factors, ref_cp_tensor.factors\n"),
     ("C20", "congruence-assignment-keyed-by-columns", "tensorly/metrics/factors.py", "    indices = dict(zip(row_ind, col_ind))", "    indices = dict(zip(col_ind, row_ind))"),
     ("C20", "congruence-cross-product-transposed", "tensorly/metrics/factors.py", "        all_congruences_list.append(T.dot(T.transpose(mat1), mat2))", "        all_congruences_list.append(T.dot(T.transpose(mat2), mat1))"),
+    ("C13", "hals-docstring-increment-form", "tensorly/solvers/nnls.py", "                newV = tl.clip(num / den, a_min=epsilon)", "                newV = tl.clip(V[k, :] + (num - UtU[k, k] * V[k, :]) / den, a_min=epsilon)"),
+    ("C07", "hals-docstring-increment-form", "tensorly/solvers/nnls.py", "                newV = tl.clip(num / den, a_min=epsilon)", "                newV = tl.clip(V[k, :] + (num - UtU[k, k] * V[k, :]) / den, a_min=epsilon)"),
+    ("C13", "hals-correction-term-halved", "tensorly/solvers/nnls.py", "                num = UtM[k, :] - tl.dot(UtU[k, :], V) + UtU[k, k] * V[k, :]\n", "                num = UtM[k, :] - tl.dot(UtU[k, :], V) + 0.5 * UtU[k, k] * V[k, :]\n"),
     ("C03", "cp-ctor-skips-validation", "tensorly/cp_tensor.py", "        shape, rank = _validate_cp_tensor(cp_tensor)\n        weights, factors = cp_tensor\n", "        weights, factors = cp_tensor\n        shape, rank = tuple(f.shape[0] for f in factors), factors[0].shape[1]\n"),
     ("C03", "tt-vec-of-other-family", "tensorly/tt_tensor.py", "    return tl.tensor_to_vec(tt_to_tensor(factors))", "    return tl.tensor_to_vec(tt_to_tensor(factors[::-1]))"),
     ("C03", "tucker-unfolded-wrong-mode", "tensorly/tucker_tensor.py", "        mode,\n    )", "        mode + 1,\n    )"),
@@ -460,6 +463,7 @@ TEXTUAL_TWINS = [
     ("C07", "parafac-gram-weights-commuted", "tensorly/decomposition/_cp.py", "                tl.reshape(weights, (-1, 1))\n                * pseudo_inverse\n                * tl.reshape(weights, (1, -1))\n            )\n            mttkrp = unfolding_dot_khatri_rao(tensor, (weights, factors), mode)\n\n            factor = tl.transpose(", "                pseudo_inverse\n                * tl.reshape(weights, (-1, 1))\n                * tl.reshape(weights, (1, -1))\n            )\n            mttkrp = unfolding_dot_khatri_rao(tensor, (weights, factors), mode)\n\n            factor = tl.transpose("),
     ("C07", "parafac-linesearch-guard-flipped-operands", "tensorly/decomposition/_cp.py", "            if (new_rec_error / new_norm_tensor) < rec_errors[-1]:", "            if rec_errors[-1] > (new_rec_error / new_norm_tensor):"),
     ("C07", "tr-als-normal-eq-named-transpose", "tensorly/decomposition/_tr_als.py", "                rhs_mat = tl.matmul(design_mat_tr, tensor_unf)", "                rhs_mat = tl.dot(design_mat_tr, tensor_unf)"),
+    ("C13", "hals-increment-form-with-full-denominator", "tensorly/solvers/nnls.py", "                newV = tl.clip(num / den, a_min=epsilon)", "                newV = tl.clip(V[k, :] + (num - den * V[k, :]) / den, a_min=epsilon)"),
     ("C13", "hals-update-as-increment", "tensorly/solvers/nnls.py", "                newV = tl.clip(num / den, a_min=epsilon)", "                step = (num - den * V[k, :]) / den\n                newV = tl.clip(V[k, :] + step, a_min=epsilon)"),
     ("C13", "fista-gradient-reordered", "tensorly/solvers/nnls.py", "                -UtM + tl.dot(UtU, x_update) + sparsity_coef + 2 * ridge_coef * x_update\n", "                tl.dot(UtU, x_update) - UtM + 2 * ridge_coef * x_update + sparsity_coef\n"),
     ("C12", "hard-threshold-zero-count-returns-zeros", "tensorly/tenalg/proximal.py", "    tensor_vec = tl.copy(tl.tensor_to_vec(tensor))\n    sorted_indices", "    if number_of_non_zero < 1:\n        return tensor * 0\n    tensor_vec = tl.copy(tl.tensor_to_vec(tensor))\n    sorted_indices"),
